@@ -5,8 +5,8 @@ package main
 // A `guardedby Type.Field Mutex mode` directive says which mutex of the owning
 // object protects a location:
 //   rw         every load and store of the field needs the mutex (a read lock suffices for loads)
-//   writeonce  every store needs the mutex held for writing and may only replace the zero value
-//              (loads need no lock: a non-zero value, once published under the lock, never changes)
+//   writeonce  every store needs the mutex held for writing and may only replace the zero value; a load needs
+//              the mutex unless the value is already known to be non-zero (published under the lock earlier)
 //   map        the field holds a map; reading it (lookup, range, len) needs the mutex, updating it the write lock
 //   calls      the field holds an object whose methods are not thread-safe; passing the loaded value to a call
 //              (as receiver or argument) needs the write lock
@@ -143,6 +143,17 @@ func (fr *frame) lockChecks(ins ssa.Instruction, st *State) {
 					fr.lockOblige(ins, st, "load-needs-"+g.Mutex, h)
 				}
 			}
+			if g := fr.w.guardFor(fa); g != nil && g.Mode == "writeonce" {
+				// a write-once field may be read without the mutex only when its value is already
+				// known to be published (non-zero): that knowledge can only stem from an access under
+				// the mutex - this thread's own, or a callee's reported through its contract
+				if h, ok := held(g, fa, false); ok {
+					cur := fr.loadLoc(fr.get(fa).Loc, st, ins)
+					if cur.T != nil {
+						fr.lockOblige(ins, st, "unlocked-load-of-unpublished-"+g.Field, Or(h, Not(Eq(cur.T, fr.w.zeroOfSort(cur.T.Sort)))))
+					}
+				}
+			}
 		}
 	case *ssa.Lookup:
 		if g, fa := fr.loadedGuardedField(x.X); g != nil && g.Mode == "map" {
@@ -252,6 +263,9 @@ func (fr *frame) lockExit(reach *Term, h *Heap) {
 // registerLockHeaps declares the ghost heaps of every guard up front, so that
 // the entry assumption covers them.
 func (w *World) registerLockHeaps() {
+	if len(w.cons.Guards) > 0 {
+		w.regHeap(ownKey, ArrSort(SInt, SBool), nil)
+	}
 	for _, g := range w.cons.Guards {
 		t, err := w.resolveType(g.Type, g.Pkg)
 		if err != nil {
@@ -397,4 +411,25 @@ func (w *World) sharedWriteAllowed(k string) bool {
 		}
 	}
 	return false
+}
+
+// pool ownership: an object taken from a pool is owned by the taker until it is put back; putting back what is
+// not owned (a second Put) would hand the same object to two takers.
+const ownKey = "LKw:pool-owned"
+
+func (fr *frame) poolGet(v *Val, st *State) {
+	if fr.isDiscovery || len(fr.w.cons.Guards) == 0 || v == nil || v.T == nil {
+		return
+	}
+	fr.w.regHeap(ownKey, ArrSort(SInt, SBool), nil)
+	st.heap = st.heap.set(ownKey, Store(st.heap.get(ownKey), v.T, True))
+}
+
+func (fr *frame) poolPut(v *Val, st *State, x ssa.Instruction) {
+	if fr.isDiscovery || len(fr.w.cons.Guards) == 0 || v == nil || v.T == nil {
+		return
+	}
+	fr.w.regHeap(ownKey, ArrSort(SInt, SBool), nil)
+	fr.lockOblige(x, st, "put-of-owned-object", Select(st.heap.get(ownKey), v.T))
+	st.heap = st.heap.set(ownKey, Store(st.heap.get(ownKey), v.T, False))
 }
